@@ -77,7 +77,7 @@ fn main() {
         let txt = std::fs::read_to_string(path).expect("read replay file");
         let v: serde_json::Value = serde_json::from_str(&txt).expect("replay json");
         let id = v["property"].as_str().unwrap_or("").to_string();
-        let out = match id.as_str() {
+        let out = util::catch_harness(|| match id.as_str() {
             "C01" => c01::replay(&v["replay"]),
             "C02" => c02::replay(&v["replay"]),
             "C03" => c03::replay(&v["replay"]),
@@ -100,6 +100,14 @@ fn main() {
             "C20" => c20::replay(&v["replay"]),
             _ => {
                 eprintln!("no replay for {}", id);
+                std::process::exit(2);
+            }
+        });
+        let out = match out {
+            Ok(o) => o,
+            Err(p) => {
+                report::outln(&format!("MACHINERY-ERROR replay: the harness panicked: {}", p));
+                eprintln!("MACHINERY-ERROR replay: the harness panicked: {}", p);
                 std::process::exit(2);
             }
         };
